@@ -126,6 +126,8 @@ def tryParse8 (c : Cfg) (k : Comp) (b : Bytes) : Except Err (Option Nat × Bytes
     | some bs =>
       if is8Digits c.mantissaRadix bs then do
         let b ← b.stepBy c (c.iterContiguous k) 8
+        -- `if cfg!(feature = "format") { for _ in 0..8 { iter.increment_count(); } }`
+        let b := (List.range 8).foldl (fun b _ => b.incCount c k) b
         pure (some (val8Digits c.mantissaRadix bs), b)
       else pure (none, b)
 
